@@ -116,7 +116,11 @@ def nested_cases(ctx):
         cs = [rng.choice(good) if rng.random() < 0.8 else rng.choice([c for c in CLASSES if c != XR]) for _ in range(k)]
         vals = [rng.choice([v for v in VALUES[c] if "d7fe1ccf385ebc8a0" not in v]) for c in cs]      # (sum/avg overflow is C12's known finding F14)
         form = rng.choice(["map(&%s(@), xs)", "xs[*].%s(@)", "xs[].%s(@)", "sort_by(xs, &%s(@))", "max_by(xs, &%s(@))", "xs[?%s(@)]",
-                           "[xs[0].%s(@), `1`]", "{k: xs[-1].%s(@)}", "to_array(xs[0].%s(@))", "xs[*].[%s(@)]"])
+                           "[xs[0].%s(@), `1`]", "{k: xs[-1].%s(@)}", "to_array(xs[0].%s(@))", "xs[*].[%s(@)]",
+                           # a call as an operand of the boolean / comparison operators and of a pipe: its error is the result, whichever side it stands on
+                           "xs[0].%s(@) || `0`", "`null` || xs[0].%s(@)", "xs[0].%s(@) && `1`", "`1` && xs[0].%s(@)", "!(xs[0].%s(@))", "xs[0].%s(@) == `1`",
+                           "`1` != xs[0].%s(@)", "xs[0].%s(@) | [0]", "(xs[0].%s(@) || `1`) && `2`", "xs[?%s(@) || `true`]", "xs[?`false` || %s(@)]",
+                           "xs[?!%s(@)]", "xs[?%s(@) == `1`]"])
         out.append((form, f, tuple(cs), form % f, "{ " + G.enc_str("xs") + " [ " + " ".join(vals) + " ] }"))
     return out
 
@@ -262,7 +266,7 @@ def run(ctx):
         ci, cm = S.canon_eval(i), S.canon_eval(m)
         case = ["nested", form, f, list(classes), e, d]
         used = classes
-        if form.startswith("[xs[0]") or form.startswith("to_array(xs[0]"):
+        if "xs[0]." in form and not form.startswith(("map(", "xs[*]", "xs[]", "sort_by", "max_by", "xs[?")):
             used = classes[:1]
         elif form.startswith("{k: xs[-1]"):
             used = classes[-1:]
